@@ -27,6 +27,6 @@ for p in sorted(glob.glob(os.path.join(V, "seeded", "*", "meta.json"))):
 seeded = "\n".join(rows)
 s = open(os.path.join(V, "DESIGN.md")).read()
 for tag, body in (("FINDINGS", findings), ("SEEDED", seeded)):
-    s = re.sub(rf"<!-- BEGIN {tag} -->.*?<!-- END {tag} -->", f"<!-- BEGIN {tag} -->\n{body}\n<!-- END {tag} -->", s, flags=re.S)
+    s = re.sub(rf"<!-- BEGIN {tag} -->.*?<!-- END {tag} -->", lambda m, body=body, tag=tag: f"<!-- BEGIN {tag} -->\n{body}\n<!-- END {tag} -->", s, flags=re.S)
 open(os.path.join(V, "DESIGN.md"), "w").write(s)
 print("tables regenerated")
